@@ -238,7 +238,12 @@ func (e *Engine) registerFSIntrinsics() {
 
 type fileInfoObj struct{ dir bool }
 
-func (f *fileInfoObj) method(name string) Value { panic(unsupported("FileInfo." + name)) }
+func (f *fileInfoObj) method(name string) Value {
+	if name == "IsDir" {
+		return &hostFunc{name: "FileInfo.IsDir", f: func(r *Run, fr *frame, a []Value) Value { return BoolV{C: f.dir} }}
+	}
+	panic(unsupported("FileInfo." + name))
+}
 
 type fileObj struct{}
 
